@@ -194,6 +194,8 @@ pub struct Decoded<R> {
     pub ctor_err: Option<io::Error>,
     /// chunk_count()/member_count() of MT readers after the drain
     pub units: Option<u64>,
+    /// Some(description) if a read after a clean end of stream did not return Ok(0)
+    pub after_eos: Option<String>,
 }
 
 /// Decodes with the reader matching `spec`. `orig_len` is what the container would tell the
@@ -210,11 +212,30 @@ pub fn decode_from<R: Read>(
         ($r:expr) => {{
             let mut r = $r;
             let d = drain(&mut r, sizes, max_out, 64);
+            // the end of the stream is final: further reads return Ok(0)
+            let mut after_eos = None;
+            if d.is_ok() {
+                let mut extra = [0u8; 64];
+                for k in 0..3 {
+                    match r.read(&mut extra) {
+                        Ok(0) => {}
+                        Ok(n) => {
+                            after_eos = Some(format!("read #{} after Ok(0) returned {n} more bytes", k + 1));
+                            break;
+                        }
+                        Err(e) => {
+                            after_eos = Some(format!("read #{} after Ok(0) failed: {:?}:{e}", k + 1, e.kind()));
+                            break;
+                        }
+                    }
+                }
+            }
             Decoded {
                 drain: d,
                 inner: Some(r.into_inner()),
                 ctor_err: None,
                 units: None,
+                after_eos,
             }
         }};
     }
@@ -233,6 +254,7 @@ pub fn decode_from<R: Read>(
                         inner: None,
                         ctor_err: Some(e),
                         units: None,
+                        after_eos: None,
                     }
                 }
             }
@@ -274,6 +296,7 @@ pub fn decode_from<R: Read>(
                 inner: None,
                 ctor_err: None,
                 units,
+                after_eos: None,
             }
         }
         Container::LzipMt { .. } => {
@@ -288,6 +311,7 @@ pub fn decode_from<R: Read>(
                 inner: None,
                 ctor_err: None,
                 units: None,
+                after_eos: None,
             }
         }
     }
@@ -303,6 +327,7 @@ pub fn decode_lzip_mt<R: Read + Seek>(src: R, workers: u32, sizes: &[usize], max
                 inner: None,
                 ctor_err: None,
                 units,
+                after_eos: None,
             }
         }
         Err(e) => Decoded {
@@ -315,6 +340,7 @@ pub fn decode_lzip_mt<R: Read + Seek>(src: R, workers: u32, sizes: &[usize], max
             inner: None,
             ctor_err: Some(e),
             units: None,
+            after_eos: None,
         },
     }
 }
